@@ -1037,7 +1037,7 @@ def generate_all_classes(spec: model.LSPModel, types: TypeData):
                 else "INotification<LSPAny>"
             ),
             [
-                f"[Direction(MessageDirection.{to_upper_camel_case(request.messageDirection)})]",
+                f"[Direction(MessageDirection.{to_upper_camel_case(notification.messageDirection)})]",
             ],
         )
         registration_options = get_registration_options_template(
